@@ -289,6 +289,7 @@ def _arg_shard(arg):
                         proj.modify(os.path.join(pr.src, 'options.bfg'))
                         with open(os.path.join(pr.src, 'options.bfg'), 'w') as f:
                             f.write(decl_src(name, kw))
+                        proj.tick()
                         rc, out, _ = pr.run([])
                         n += 1
                         ns3 = open(outp).read() if os.path.exists(outp) else 'NOT-REGENERATED rc=%s' % rc
